@@ -108,7 +108,7 @@ def compare_json(ctx, a, b, label, path=""):
         ctx.require(a == b, f"{label}: value at {path}", f"{a!r} vs {b!r}")
 
 
-def h_roundtrip(ctx, skeleton, save_calc, n=2, args=None, edit=None, post_edit=None, old_version=False):
+def h_roundtrip(ctx, skeleton, save_calc, n=2, args=None, edit=None, post_edit=None, old_version=False, custom_sources=False):
     spec = M.SKELETONS[skeleton](n, **(args or {}))
     # spare jobs (outside the system) must not hang on a server of the system: they would not be exported, yet they are
     # ancestors of that server's load in the original graph (a model with dangling reverse links is outside the claim)
@@ -121,6 +121,14 @@ def h_roundtrip(ctx, skeleton, save_calc, n=2, args=None, edit=None, post_edit=N
         env.symbolic.update(collect_slots(spec, [edit]))
     if post_edit:
         env.symbolic.update(collect_slots(spec, [post_edit]))
+    if custom_sources:
+        from efootprint.abstract_modeling_classes.explainable_object_base_class import Source
+        # two sources sharing a name with different links, a source without link, a user-defined source
+        env.sources.update({"srv.power": Source("Vendor datasheet", "https://vendor.example/2022"),
+                            "dev.power": Source("Vendor datasheet", "https://vendor.example/2024"),
+                            "job.data_transferred": Source("measured in production", None),
+                            "st.storage_capacity": Source("user data", "https://intranet.example/storage"),
+                            "net.bandwidth_energy_intensity": Source("user data", None)})
     objs = M.build(spec, env)
     if edit:
         e = resolve(ctx, env, env, spec, edit, 0)
@@ -174,6 +182,8 @@ def plan(tier, seed):
     p.append(("roundtrip", dict(skeleton="T5", save_calc=False, args={"type1": "on-premise", "type2": "serverless", "fixed1": 5})))
     p.append(("roundtrip", dict(skeleton="T1", save_calc=False, old_version=True)))
     p.append(("roundtrip", dict(skeleton="T1e", save_calc=False)))
+    p.append(("roundtrip", dict(skeleton="T1", save_calc=False, custom_sources=True)))
+    p.append(("roundtrip", dict(skeleton="T9", save_calc=True, custom_sources=True)))
     p.append(("roundtrip", dict(skeleton="T1e", save_calc=True, post_edit=dict(k="list_op", obj="step_empty", attr="jobs", op="append", args=["job"]))))
     p.append(("roundtrip", dict(skeleton="T9", save_calc=False, old_version=True)))
     p.append(("roundtrip", dict(skeleton="T1", save_calc=False, edit=num("job", "data_transferred"))))
